@@ -2,9 +2,9 @@ package main
 
 import (
 	"flag"
+	"fmt"
 	"io"
 	"log"
-	"fmt"
 	"os"
 	"runtime"
 	"time"
